@@ -41,6 +41,22 @@ Theorem C12_disc_sum_fl_value : forall prec emax (Hp : Prec_gt_0 prec) (Hpe : Pr
   is_finite (disc_sum_fl prec emax Hp Hpe x1 x2) = true /\ 0 <= disc_sum prec emax (B2R x1) (B2R x2) <= 3.
 Proof. exact disc_sum_fl_value. Qed.
 
+(* converse: below a shell of width 4u (6u) the float test never rejects, so  {|x|^2 <= 1 - 4u}  <=  accepted  <=  {|x|^2 <= 1 + 4u} *)
+Theorem C12_disc_accept_fl_complete : forall prec emax (Hp : Prec_gt_0 prec) (Hpe : Prec_lt_emax prec emax),
+  (prec + 3 <= emax)%Z -> (3 <= prec)%Z -> forall x1 x2 : binary_float prec emax,
+  is_finite x1 = true -> is_finite x2 = true -> Rabs (B2R x1) <= 1 -> Rabs (B2R x2) <= 1 ->
+  B2R x1 * B2R x1 + B2R x2 * B2R x2 <= 1 - 4 * bpow radix2 (- prec) ->
+  disc_accept_fl prec emax Hp Hpe x1 x2 = true.
+Proof. exact disc_accept_fl_complete. Qed.
+
+Theorem C12_ball_accept_fl_complete : forall prec emax (Hp : Prec_gt_0 prec) (Hpe : Prec_lt_emax prec emax),
+  (prec + 3 <= emax)%Z -> (3 <= prec)%Z -> forall x1 x2 x3 : binary_float prec emax,
+  is_finite x1 = true -> is_finite x2 = true -> is_finite x3 = true ->
+  Rabs (B2R x1) <= 1 -> Rabs (B2R x2) <= 1 -> Rabs (B2R x3) <= 1 ->
+  B2R x1 * B2R x1 + B2R x2 * B2R x2 + B2R x3 * B2R x3 <= 1 - 6 * bpow radix2 (- prec) ->
+  ball_accept_fl prec emax Hp Hpe x1 x2 x3 = true.
+Proof. exact ball_accept_fl_complete. Qed.
+
 (* non-vacuity: binary64 and binary32 meet the format hypotheses *)
 Example C12_fl_binary64 : forall x1 x2 : binary_float 53 1024,
   is_finite x1 = true -> is_finite x2 = true -> Rabs (B2R x1) <= 1 -> Rabs (B2R x2) <= 1 ->
@@ -56,3 +72,5 @@ Print Assumptions C12_accept_fl_def.
 Print Assumptions C12_disc_accept_fl_norm.
 Print Assumptions C12_ball_accept_fl_norm.
 Print Assumptions C12_disc_sum_fl_value.
+Print Assumptions C12_disc_accept_fl_complete.
+Print Assumptions C12_ball_accept_fl_complete.
